@@ -1,7 +1,7 @@
 //! Second-pass declaration checking: validate models, classes, traits, enums, functions, methods.
 
 use crate::frontend::ast::*;
-use crate::frontend::diagnostics::errors;
+use crate::frontend::diagnostics::{CompileError, errors};
 use crate::frontend::symbols::*;
 
 use super::TypeChecker;
@@ -284,6 +284,32 @@ impl TypeChecker {
         }
     }
 
+    /// Does the `extends` chain that starts at class `start` reach class `target`?
+    fn extends_chain_reaches(&self, start: &str, target: &str) -> bool {
+        let mut seen: Vec<String> = Vec::new();
+        let mut cur = start.to_string();
+        loop {
+            if cur == target {
+                return true;
+            }
+            if seen.contains(&cur) {
+                return false; // a cycle that does not contain `target`; reported at its own members
+            }
+            let parent = match self.symbols.lookup(&cur).and_then(|id| self.symbols.get(id)) {
+                Some(sym) => match &sym.kind {
+                    SymbolKind::Type(TypeInfo::Class(info)) => info.extends.clone(),
+                    _ => None,
+                },
+                None => None,
+            };
+            seen.push(cur);
+            match parent {
+                Some(p) => cur = p,
+                None => return false,
+            }
+        }
+    }
+
     fn check_class(&mut self, class: &ClassDecl) {
         self.symbols.enter_scope(ScopeKind::Class);
 
@@ -294,6 +320,16 @@ impl TypeChecker {
         if let Some(base) = &class.extends {
             if self.symbols.lookup(base).is_none() {
                 self.errors.push(errors::unknown_symbol(base, Span::default()));
+            } else if self.extends_chain_reaches(base, &class.name) {
+                // `class A extends A`, `class A extends B` + `class B extends A`, ...: code generation walks the
+                // chain of parents recursively and would never terminate.
+                self.errors.push(
+                    CompileError::type_error(
+                        format!("Class '{}' inherits from itself (inheritance cycle through '{}')", class.name, base),
+                        Span::default(),
+                    )
+                    .with_hint("A class cannot be its own ancestor; remove one `extends` from the cycle"),
+                );
             }
         }
 
